@@ -21,6 +21,7 @@ import (
 	"fmt"
 	"os"
 	"runtime"
+	"time"
 	realsync "sync"
 	"unsafe"
 )
@@ -49,6 +50,9 @@ const (
 	opYield
 	opExit
 	opJoinAll
+	opExt      // inside an operation that may block outside the scheduler (channel, select)
+	opResume   // back from such an operation, waiting for the turn
+	opCondWait // sync.Cond.Wait: enabled once signalled
 )
 
 // Choice-point kinds.
@@ -64,6 +68,7 @@ type thread struct {
 	obj      unsafe.Pointer
 	steps    int32
 	released bool
+	ext      bool // parked (or about to park) in an uninstrumented blocking operation: not schedulable
 }
 
 // Point is one recorded choice point (only points with >= 2 alternatives are recorded).
@@ -96,6 +101,7 @@ type Result struct {
 	Events      []Event
 	GPanic      string // first panic that reached the top of a library goroutine ("" if none)
 	Hashes      []uint64
+	ExtUsed     bool // some thread parked in a channel operation (timing of the runtime's wake-ups is not owned)
 }
 
 type global struct {
@@ -115,6 +121,7 @@ type global struct {
 	gpanic      string
 	all         realsync.WaitGroup
 	mapSites    int64
+	extUsed     bool // a thread has parked outside the scheduler in this execution
 }
 
 var g global
@@ -152,6 +159,8 @@ func Run(cfg Config, prefix []int32, body func()) *Result {
 	g.transitions = 0
 	g.nevents = 0
 	g.gpanic = ""
+	g.extUsed = false
+	nparked = 0
 	g.nthreads = 1
 	g.threads[0] = thread{state: 1}
 	g.cur = 0
@@ -171,6 +180,7 @@ func Run(cfg Config, prefix []int32, body func()) *Result {
 		Threads:     int(g.nthreads),
 		Events:      make([]Event, g.nevents),
 		GPanic:      g.gpanic,
+		ExtUsed:     g.extUsed,
 	}
 	copy(res.Points, g.points[:g.npoints])
 	copy(res.Events, g.events[:g.nevents])
@@ -180,10 +190,12 @@ func Run(cfg Config, prefix []int32, body func()) *Result {
 //go:norace
 func enabled(i int32) bool {
 	t := &g.threads[i]
-	if t.state != 1 {
+	if t.state != 1 || t.ext {
 		return false
 	}
 	switch t.op {
+	case opCondWait:
+		return t.released
 	case opLock:
 		return !(*Mutex)(t.obj).held
 	case opWLock:
@@ -255,6 +267,12 @@ func pick(me int32) int32 {
 		}
 	}
 	if n == 0 {
+		if anyExt() {
+			// nobody can run now, but a thread is inside a channel operation / select / sleep that
+			// may complete by itself or is being completed right now: nobody holds the turn until a
+			// thread comes back (ExtResume claims it)
+			return -1
+		}
 		OnAbort("deadlock", describeThreads())
 	}
 	if n == 1 {
@@ -299,12 +317,224 @@ func point(op opKind, obj unsafe.Pointer) {
 	if next != me {
 		g.cur = next
 		g.turn = next
-		for g.turn != me {
-			runtime.Gosched()
-		}
+		waitTurn(me)
 	}
 	t.op, t.obj = opNone, nil
 	t.released = false
+}
+
+//go:norace
+func anyExt() bool {
+	for j := int32(0); j < g.nthreads; j++ {
+		if g.threads[j].state == 1 && g.threads[j].ext {
+			return true
+		}
+	}
+	return false
+}
+
+// ExtDeadline is how long an execution in which no thread can be scheduled waits for a thread that
+// is inside an uninstrumented blocking operation before it is declared deadlocked.
+var ExtDeadline = 20 * time.Second
+
+// waitTurn spins until thread me holds the turn.  While nobody holds it (every schedulable thread
+// is blocked and some thread is parked in a channel operation) the first thread that becomes
+// enabled again takes it; if that does not happen within ExtDeadline the execution is deadlocked.
+//
+//go:norace
+func waitTurn(me int32) {
+	spins := 0
+	var since time.Time
+	for g.turn != me {
+		if g.turn == -1 {
+			if enabled(me) {
+				// threads run one at a time (GOMAXPROCS=1) and this check-and-set has no yield in it
+				g.cur = me
+				g.turn = me
+				return
+			}
+			spins++
+			if spins&1023 == 0 {
+				if since.IsZero() {
+					since = time.Now()
+				} else if time.Since(since) > ExtDeadline {
+					OnAbort("deadlock", "no thread can run and the threads parked in channel operations did not come back: "+describeThreads())
+				}
+			}
+		} else {
+			spins = 0
+			since = time.Time{}
+		}
+		runtime.Gosched()
+	}
+}
+
+// Threads parked in channel operations.  A record names the channels (and directions) the thread
+// waits on; records are kept in arrival order, which is the order of the runtime's wait queues.
+// When the thread that holds the turn completes an operation on one of these channels it knows
+// which parked thread that operation releases (the first waiting in the opposite direction) and
+// marks it schedulable on its behalf - the released goroutine itself may not have run yet, and the
+// set of enabled threads at the holder's next scheduling point must not depend on that.
+const (
+	DirRecv int8 = 1
+	DirSend int8 = 2
+)
+
+type ChanRef struct {
+	P   unsafe.Pointer
+	Dir int8
+}
+
+type parkedRec struct {
+	thread int32
+	n      int32
+	ch     [8]ChanRef
+}
+
+var parked [256]parkedRec
+var nparked int32
+
+//go:norace
+func unpark(thread int32) {
+	for i := int32(0); i < nparked; i++ {
+		if parked[i].thread == thread {
+			copy(parked[i:nparked], parked[i+1:nparked])
+			nparked--
+			return
+		}
+	}
+}
+
+// released is called by the turn holder after it completed an operation on channel p that releases
+// one thread waiting in direction dir (all of them if all is set: close).
+//
+//go:norace
+func released(p unsafe.Pointer, dir int8, all bool) {
+	if g.active == 0 {
+		return
+	}
+	for i := int32(0); i < nparked; i++ {
+		r := &parked[i]
+		hit := false
+		for k := int32(0); k < r.n; k++ {
+			if r.ch[k].P == p && (all || r.ch[k].Dir == dir) {
+				hit = true
+			}
+		}
+		if hit {
+			t := &g.threads[r.thread]
+			t.op, t.obj = opResume, nil
+			t.ext = false
+			copy(parked[i:nparked], parked[i+1:nparked])
+			nparked--
+			if !all {
+				return
+			}
+			i--
+		}
+	}
+}
+
+// ExtBlock announces that the running thread is about to perform an operation that may block
+// outside the scheduler (a channel operation that cannot complete at once, a select without
+// default) on the given channels.  The thread gives the turn away - to another enabled thread if
+// there is one, to nobody otherwise - and then performs the real operation; ExtResume must follow.
+//
+//go:norace
+func ExtBlock(chs ...ChanRef) int32 {
+	if g.active == 0 {
+		return -1
+	}
+	me := g.cur
+	t := &g.threads[me]
+	t.steps++
+	g.transitions++
+	g.extUsed = true
+	if g.transitions > StepCap {
+		OnAbort("livelock", "step cap exceeded: "+describeThreads())
+	}
+	t.op, t.obj = opExt, nil
+	t.ext = true
+	if nparked < int32(len(parked)) {
+		r := &parked[nparked]
+		r.thread = me
+		r.n = 0
+		for _, c := range chs {
+			if r.n < int32(len(r.ch)) && c.P != nil {
+				r.ch[r.n] = c
+				r.n++
+			}
+		}
+		nparked++
+	}
+	next := pick(me) // me is not enabled: a free switch, still enumerated
+	g.cur = next
+	g.turn = next
+	return me
+}
+
+// ExtResume is called by a thread that has come back from the operation announced by ExtBlock: it
+// is schedulable again (if the thread that released it has not said so already) and continues once
+// it holds the turn.
+//
+//go:norace
+func ExtResume(me int32) {
+	if me < 0 || g.active == 0 {
+		return
+	}
+	t := &g.threads[me]
+	if t.ext {
+		t.op, t.obj = opResume, nil
+		t.ext = false
+		unpark(me)
+	}
+	waitTurn(me)
+	t.op = opNone
+}
+
+// ExtResumeSel is ExtResume for a select statement: c is the communication that was chosen.  If it
+// was completed at once by pairing with a parked thread, that thread is released.
+//
+//go:norace
+func ExtResumeSel(me int32, c ChanRef) {
+	if me < 0 || g.active == 0 {
+		return
+	}
+	if c.P != nil && g.threads[me].ext {
+		if c.Dir == DirRecv {
+			released(c.P, DirSend, false)
+		} else {
+			released(c.P, DirRecv, false)
+		}
+	}
+	ExtResume(me)
+}
+
+// SelRecv / SelSend name a channel of a select statement for ExtBlock.
+func SelRecv[T any](ch <-chan T) ChanRef { return ChanRef{chanPtr(ch), DirRecv} }
+func SelSend[T any](ch chan<- T) ChanRef { return ChanRef{chanPtr(ch), DirSend} }
+
+func chanPtr[C any](ch C) unsafe.Pointer { return *(*unsafe.Pointer)(unsafe.Pointer(&ch)) }
+
+// Sleep replaces time.Sleep in instrumented code: under the scheduler a sleep is a point at which
+// other threads may run (latency is what the schedules model), not a wall-clock delay.
+//
+//go:norace
+func Sleep(d time.Duration) {
+	if g.active == 0 {
+		time.Sleep(d)
+		return
+	}
+	point(opYield, nil)
+}
+
+// AP is placed around the callee of every sync/atomic operation: an atomic operation is a
+// synchronisation operation and therefore a scheduling point.
+//
+//go:norace
+func AP[F any](f F) F {
+	point(opYield, nil)
+	return f
 }
 
 // Yield is a scheduling point with no effect; harness functions use it to model latency.
@@ -352,9 +582,7 @@ func worker(id int32, in chan func()) {
 
 //go:norace
 func threadMain(id int32, f func()) {
-	for g.turn != id {
-		runtime.Gosched()
-	}
+	waitTurn(id)
 	t := &g.threads[id]
 	t.op = opNone
 	defer threadExit(id)
